@@ -22,10 +22,12 @@ func (m *Mutex) VerifLocked() bool { return m.s.Locked() }
 
 type RWMutex struct{ s vsched.RWMutexState }
 
-func (m *RWMutex) Lock()    { m.s.Lock() }
-func (m *RWMutex) Unlock()  { m.s.Unlock() }
-func (m *RWMutex) RLock()   { m.s.RLock() }
-func (m *RWMutex) RUnlock() { m.s.RUnlock() }
+func (m *RWMutex) Lock()          { m.s.Lock() }
+func (m *RWMutex) Unlock()        { m.s.Unlock() }
+func (m *RWMutex) RLock()         { m.s.RLock() }
+func (m *RWMutex) RUnlock()       { m.s.RUnlock() }
+func (m *RWMutex) TryLock() bool  { return m.s.TryLock() }
+func (m *RWMutex) TryRLock() bool { return m.s.TryRLock() }
 
 // VerifFree exposes the model state to oracles.
 func (m *RWMutex) VerifFree() bool { return m.s.Free() }
@@ -142,4 +144,113 @@ func (m *Map) Range(f func(k, v interface{}) bool) {
 			return
 		}
 	}
+}
+
+// LoadAndDelete / Swap / CompareAndSwap / CompareAndDelete / Clear complete the sync.Map surface.
+func (m *Map) LoadAndDelete(k interface{}) (interface{}, bool) {
+	v, ok := m.Load(k)
+	if ok {
+		m.Delete(k)
+	}
+	return v, ok
+}
+
+func (m *Map) Swap(k, v interface{}) (interface{}, bool) {
+	old, ok := m.Load(k)
+	m.Store(k, v)
+	return old, ok
+}
+
+func (m *Map) CompareAndSwap(k, old, new interface{}) bool {
+	m.mu.Lock()
+	cur, ok := m.m[k]
+	m.mu.Unlock()
+	if !ok || cur != old {
+		return false
+	}
+	m.Store(k, new)
+	return true
+}
+
+func (m *Map) CompareAndDelete(k, old interface{}) bool {
+	m.mu.Lock()
+	cur, ok := m.m[k]
+	m.mu.Unlock()
+	if !ok || cur != old {
+		return false
+	}
+	m.Delete(k)
+	return true
+}
+
+func (m *Map) Clear() {
+	m.mu.Lock()
+	m.m, m.ks = nil, nil
+	m.mu.Unlock()
+}
+
+// Cond: waiters queue in arrival order; Signal wakes the oldest, Broadcast all of them.
+type Cond struct {
+	L       Locker
+	waiters []chan struct{}
+}
+
+func NewCond(l Locker) *Cond { return &Cond{L: l} }
+
+func (c *Cond) Wait() {
+	ch := make(chan struct{}, 1)
+	c.waiters = append(c.waiters, ch)
+	c.L.Unlock()
+	vsched.C(ch).Recv()
+	c.L.Lock()
+}
+
+func (c *Cond) Signal() {
+	if len(c.waiters) > 0 {
+		ch := c.waiters[0]
+		c.waiters = c.waiters[1:]
+		vsched.C(ch).Send(struct{}{})
+	}
+}
+
+func (c *Cond) Broadcast() {
+	ws := c.waiters
+	c.waiters = nil
+	for _, ch := range ws {
+		vsched.C(ch).Send(struct{}{})
+	}
+}
+
+// OnceFunc / OnceValue / OnceValues (go 1.21), built on the modelled Once.
+func OnceFunc(f func()) func() {
+	var o Once
+	var p interface{}
+	failed := false
+	return func() {
+		o.Do(func() {
+			defer func() {
+				if p = recover(); p != nil {
+					failed = true
+					panic(p)
+				}
+			}()
+			f()
+		})
+		if failed {
+			panic(p)
+		}
+	}
+}
+
+func OnceValue[T any](f func() T) func() T {
+	var v T
+	g := OnceFunc(func() { v = f() })
+	return func() T { g(); return v }
+}
+
+func OnceValues[T1, T2 any](f func() (T1, T2)) func() (T1, T2) {
+	var v1 T1
+	var v2 T2
+	g := OnceFunc(func() { v1, v2 = f() })
+	return func() (T1, T2) { g(); return v1, v2 }
 }
